@@ -51,6 +51,7 @@ class Obligation:
         self.backend = None
         self.solver_s = 0.0
         self.reason = ""
+        self.candidate = None   # candidate counter-model of an undecided obligation (quantifier instantiation incomplete)
 
 
 class PathResult:
@@ -348,7 +349,25 @@ def _solve_z3(hyps, goal, timeout_ms):
             return r, None, total, "", s
         if r == z3.sat and "smt.mbqi" not in opts:
             return r, s.model(), total, "", s
+        if r == z3.unknown and "smt.mbqi" in opts and "incomplete" in s.reason_unknown():
+            # E-matching saturated without a contradiction: the solver's state is a *candidate* counter-model (it satisfies the ground part and
+            # every generated instance of the quantified hypotheses).  Never a verdict by itself: api replays it on the real code.
+            # (the tactic front end does not expose that state; the plain SMT core does)
+            try:
+                s2 = z3.SimpleSolver()
+                s2.set("timeout", 3000)
+                s2.set("mbqi", False)
+                s2.set("auto_config", False)
+                s2.add(*hyps)
+                s2.add(z3.Not(goal))
+                if s2.check() == z3.unknown and "incomplete" in s2.reason_unknown():
+                    _CANDIDATE[0] = s2.model()
+            except z3.Z3Exception:
+                pass
     return z3.unknown, None, total, last.reason_unknown(), last
+
+
+_CANDIDATE = [None]
 
 
 def _solve_cvc5(solver, timeout_ms):
@@ -390,7 +409,9 @@ def discharge(ob, timeout_ms=None, use_cvc5=True):
             ob.model = s.model() if r == z3.sat else None
             ob.reason = "goal is the constant False on a feasible path"
         return ob
+    _CANDIDATE[0] = None
     r, model, dt, reason, solver = _solve_z3(ob.hyps, ob.goal, timeout_ms)
+    ob.candidate = _CANDIDATE[0]
     ob.solver_s = dt
     ob.backend = "z3-" + z3.get_version_string()
     if r == z3.unsat:
